@@ -54,7 +54,7 @@ func gen(r *vu.Rng, i int) []string {
 		switch k := r.Intn(100); {
 		case k < 4: // empty range
 			b = a
-		case k < 7: // unordered (out of contract when a > b)
+		case k < 10: // unordered: an inverted pair (a > b) is an empty range
 		default:
 			if a > b {
 				a, b = b, a
@@ -256,7 +256,7 @@ func runsOf(h []hop) ([][2]int64, []int64, bool) {
 func exec(ops []string, o *vu.Out) {
 	var s quic.VerifRangeset
 	var hist []hop
-	outOfContract := false // an op with start > end was seen: the oracle stops
+	outOfContract := false // (kept for replay of old cases; nothing sets it any more)
 	nfail := 0
 	var curRuns [][2]int64 // maximal runs of the reference set after the last mutation
 	fail := func(desc string) {
@@ -369,9 +369,8 @@ func exec(ops []string, o *vu.Out) {
 			o.Op(op, "ok")
 		case (t[0] == "add" || t[0] == "sub") && len(t) == 3:
 			a, b := vu.Atoi64(t[1]), vu.Atoi64(t[2])
-			if a > b {
-				outOfContract = true
-				o.Stat("out-of-contract:start>end")
+			if a > b { // an inverted pair denotes the empty set: a no-op like start == end
+				o.Stat("inverted:" + t[0])
 			}
 			if a == b {
 				o.Stat("empty:" + t[0])
